@@ -13,13 +13,15 @@ import (
 // whether a history is non-trivial. It never decides a verdict.
 
 type mTable struct {
-	slots    [tableSlots]int // owner instance of the reference in the slot, -1 = null
-	involved []int           // instances that export or import this table (empty: never exported)
+	slots    [tableSlots]int  // owner instance of the reference in the slot, -1 = null
+	traps    [tableSlots]bool // the slot holds the function that always traps (labels only)
+	involved []int            // instances that export or import this table (empty: never exported)
 }
 
 type mGlob struct {
 	owner   int // owner instance of the reference held, -1 = null
 	definer int // instance that defines the global
+	traps   bool
 }
 
 type mMem struct {
@@ -276,10 +278,13 @@ func (m *model) apply(s step) {
 			return
 		}
 		owner := m.ownerOf(s)
+		traps := (s.Src == "func" && s.K == 3) || (s.Src == "slot" && m.table(s.Inst, s.K).traps[s.Slot]) || (s.Src == "glob" && m.insts[s.Inst].glob.traps)
 		if s.Dst == "slot" {
 			m.table(s.To, s.DTbl).slots[s.DSlot] = owner
+			m.table(s.To, s.DTbl).traps[s.DSlot] = traps
 		} else {
 			m.insts[s.To].glob.owner = owner
+			m.insts[s.To].glob.traps = traps
 		}
 		if owner >= 0 && owner != s.To {
 			m.labels["foreign-reference-stored"] = true
@@ -307,6 +312,7 @@ func (m *model) apply(s step) {
 		case "tinit":
 			if !ex.elemDrop && s.Arg >= 0 && s.Arg < tableSlots {
 				ex.tab0.slots[s.Arg] = exec // f1 of the executing instance, from its passive segment
+				ex.tab0.traps[s.Arg] = false
 			}
 		case "edrop":
 			ex.elemDrop = true
@@ -437,6 +443,36 @@ func (m *model) observe() {
 		if a := in.impFrom; a >= 0 && m.insts[a].closed && m.insts[a].mem.lastGrow > m.insts[a].closedAt {
 			m.labels["code-of-closed-instance-sees-memory-grown-after-its-close"] = true
 			m.nontrivial = true
+		}
+		// a trap inside code whose compiled module was deleted from the engine, reached without
+		// a direct function import: the stack trace must be built without the engine's registry
+		codeGone := func(x int) bool {
+			xi := m.insts[x]
+			return (xi.cm >= 0 && m.cms[xi.cm].closed) || (xi.cm < 0 && xi.closed) || (m.cfg.Cache && m.cacheClosed)
+		}
+		trapVia := func(o int, traps bool, how string) {
+			if traps && o >= 0 && o != h && o != in.impFrom && codeGone(o) {
+				m.labels["trap-in-code-of-deleted-compiled-module-reached-via-"+how] = true
+				m.nontrivial = true
+			}
+		}
+		for k, o := range in.tab0.slots {
+			trapVia(o, in.tab0.traps[k], "table")
+		}
+		for k, o := range in.tab1.slots {
+			trapVia(o, in.tab1.traps[k], "table")
+		}
+		trapVia(in.glob.owner, in.glob.traps, "global")
+		if a := in.impFrom; a >= 0 {
+			// xtrap: the trap happens at the end of the import chain
+			end := a
+			for m.insts[end].impFrom >= 0 {
+				end = m.insts[end].impFrom
+			}
+			if end != a && codeGone(end) {
+				m.labels["trap-in-code-of-deleted-compiled-module-reached-via-import-of-import"] = true
+				m.nontrivial = true
+			}
 		}
 		reach(in.impFrom, "import")
 		for _, o := range in.tab0.slots {
